@@ -64,6 +64,10 @@ def roles(crate):
     role_fns = [R.merge, R.split_by, R.split_at, R.push, R.update, R.collect_into, R.new] + list(R.wrappers.values())
     R.helpers = util.private_helpers(crate, "TreapNode", exclude=role_fns) + util.private_helpers(crate, "Treap", exclude=role_fns)
     R.A = util.analyser(R.helpers)
+    # for the Treap-level compositions, public convenience constructors of the node (new_boxed, ...) are inlined too
+    rk = {x.key for x in role_fns if x is not None}
+    pubh = [m for m in util.methods_of(crate, "TreapNode") if m.key not in rk and not util.self_recursive(m) and m not in R.helpers]
+    R.A2 = util.analyser(R.helpers + pubh)
     return R
 
 
@@ -431,7 +435,7 @@ def _compositions(col, R, crate, sfx):
     fk = util.fkey
     # insert_at
     b = util.need_body(crate, "Treap::<T>::insert_at")
-    I = R.A(b)
+    I = R.A2(b)
     for st in I.final_states:
         evs = st.event_list()
         sp = [e for e in evs if _calls_role(e, R, R.split_at)]
@@ -455,7 +459,7 @@ def _compositions(col, R, crate, sfx):
             col.violation("T6" + sfx, key, b.loc(), "insert_at is not split_at(pos) followed by merge(merge(left, new node), right)", {"events": [repr(e) for e in evs]})
     # remove_at
     b = util.need_body(crate, "Treap::<T>::remove_at")
-    I = R.A(b)
+    I = R.A2(b)
     for st in I.final_states:
         evs = st.event_list()
         sp = [e for e in evs if _calls_role(e, R, R.split_at)]
@@ -478,7 +482,7 @@ def _compositions(col, R, crate, sfx):
             col.violation("T6" + sfx, key, b.loc(), "remove_at is not split_at(pos), split_at(rest, 1), merge(first, last) returning the middle node's item", {"events": [repr(e) for e in evs]})
     # Treap::merge / split_at / split_by wrappers
     b = util.need_body(crate, "Treap::<T>::merge")
-    I = R.A(b)
+    I = R.A2(b)
     for st in I.final_states:
         mg = [e for e in st.event_list() if _calls_role(e, R, R.merge)]
         l, r = ("param", 1, I.names.get(1)), ("param", 2, I.names.get(2))
@@ -490,7 +494,7 @@ def _compositions(col, R, crate, sfx):
             col.violation("T6" + sfx, key, b.loc(), "Treap::merge must forward (left.root, right.root) in this order")
     for nm, tgt in (("split_at", R.split_at), ("split_by", R.split_by)):
         b = util.need_body(crate, "Treap::<T>::%s" % nm)
-        I = R.A(b)
+        I = R.A2(b)
         for st in I.final_states:
             sp = [e for e in st.event_list() if _calls_role(e, R, tgt)]
             ret = util.ret_term(st)
